@@ -77,13 +77,22 @@ Proof.
       destruct ((getz a 2 =? 90) || (getz a 2 =? 72)); reflexivity.
 Qed.
 
-(** One step of the parse loop on a well-formed field followed by anything. *)
-Lemma parse_step fuel spare a rest :
-  0 <= spare -> wf_aux a = true ->
-  parse_aux_loop (S fuel) spare (a ++ aux_term a ++ rest)
-  = ocons a (parse_aux_loop fuel spare rest).
+Lemma zskipn3_app (a b : list Z) : 3 <= zlen a -> zskipn 3 (a ++ b) = zskipn 3 a ++ b.
 Proof.
-  intros Hsp Hwf. destruct (wf_aux_len a Hwf) as [H3 Hab].
+  intros H. unfold zskipn. rewrite skipn_app.
+  replace (Z.to_nat 3 - length a)%nat with 0%nat by (unfold zlen in H; lia). reflexivity.
+Qed.
+
+Lemma zlen_zskipn3 (a : list Z) : 3 <= zlen a -> zlen (zskipn 3 a) = zlen a - 3.
+Proof. intros H. unfold zskipn, zlen in *. rewrite skipn_length. lia. Qed.
+
+(** One step of the parse loop on a well-formed field followed by anything. *)
+Lemma parse_step fuel a rest :
+  wf_aux a = true ->
+  parse_aux_loop (S fuel) (a ++ aux_term a ++ rest)
+  = ocons a (parse_aux_loop fuel rest).
+Proof.
+  intros Hwf. destruct (wf_aux_len a Hwf) as [H3 Hab].
   unfold wf_aux in Hwf. apply andb_true_iff in Hwf. destruct Hwf as [_ Hwf].
   cbn [parse_aux_loop].
   assert (Hl : 2 <? zlen (a ++ aux_term a ++ rest) = true).
@@ -100,9 +109,8 @@ Proof.
     { unfold aux_term. fold t.
       destruct (spec_width_cases t Hfix) as [->|[->|[->|[->|[->|[->|[->| ->]]]]]]]; reflexivity. }
     rewrite Hterm. cbn [app].
-    replace (spec_width t + 3 <=? zlen (a ++ rest) + spare) with true
-      by (symmetry; apply Z.leb_le; rewrite zlen_app; pose proof (zlen_nonneg rest); lia).
-    rewrite <- app_assoc.
+    replace (zlen (a ++ rest) <? spec_width t + 3) with false
+      by (symmetry; apply Z.ltb_ge; rewrite zlen_app; pose proof (zlen_nonneg rest); lia).
     rewrite zfirstn_app_n by lia. rewrite zskipn_app_n by lia. reflexivity.
   - destruct ((t =? 90) || (t =? 72)) eqn:HZ.
     + (* Z / H *)
@@ -112,7 +120,10 @@ Proof.
       change (0 <? -1) with false. change (-1 <? 0) with true. cbv iota.
       assert (Hterm : aux_term a = [0]) by (unfold aux_term; fold t; rewrite HZ; reflexivity).
       rewrite Hterm. cbn [app].
-      rewrite (index_byte_app a rest Hwf).
+      rewrite zskipn3_app by assumption.
+      rewrite (index_byte_app (zskipn 3 a) rest Hwf).
+      rewrite zlen_zskipn3 by assumption.
+      replace (zlen a - 3 + 3) with (zlen a) by lia.
       rewrite zfirstn_app_n by reflexivity.
       replace (a ++ 0 :: rest) with ((a ++ [0]) ++ rest) by (rewrite <- app_assoc; reflexivity).
       rewrite zskipn_app_n by (rewrite zlen_app, zlen_cons, zlen_nil; lia). reflexivity.
@@ -126,15 +137,14 @@ Proof.
       apply andb_true_iff in Hwf. destruct Hwf as [Hwf Hlen]. apply andb_true_iff in Hwf. destruct Hwf as [Hwf Hsub].
       apply andb_true_iff in Hwf. destruct Hwf as [H8 HnA].
       apply Z.leb_le in H8. apply Z.ltb_lt in Hsub. apply Z.eqb_eq in Hlen.
-      replace (8 <=? zlen (a ++ rest) + spare) with true
-        by (symmetry; apply Z.leb_le; rewrite zlen_app; pose proof (zlen_nonneg rest); lia).
-      replace (3 <? zlen (a ++ rest)) with true
-        by (symmetry; apply Z.ltb_lt; rewrite zlen_app; pose proof (zlen_nonneg rest); lia).
+      replace (zlen (a ++ rest) <? 8) with false
+        by (symmetry; apply Z.ltb_ge; rewrite zlen_app; pose proof (zlen_nonneg rest); lia).
       rewrite (getz_app_l a rest 3) by lia.
       destruct (jumps_fixed _ Hsub) as [Hin2 Hj2]. rewrite Hin2, Hj2.
+      replace (spec_width (getz a 3) <=? 0) with false by (symmetry; apply Z.leb_gt; assumption).
       (* the count is read from bytes 4..8 of a *)
-      assert (Hcnt : zfirstn 4 (zskipn 4 ((a ++ rest) ++ repeat 0 (Z.to_nat spare))) = zfirstn 4 (zskipn 4 a)).
-      { rewrite <- app_assoc. unfold zfirstn, zskipn.
+      assert (Hcnt : zfirstn 4 (zskipn 4 (a ++ rest)) = zfirstn 4 (zskipn 4 a)).
+      { unfold zfirstn, zskipn.
         rewrite skipn_app. rewrite firstn_app.
         assert (Hl4 : (length (skipn (Z.to_nat 4) a) >= 4)%nat).
         { rewrite skipn_length. unfold zlen in H8. lia. }
@@ -150,12 +160,12 @@ Proof.
       cbn [orb]. rewrite zfirstn_app, zskipn_app. reflexivity.
 Qed.
 
-Lemma parse_loop_build aa : forall fuel spare tags,
-  0 <= spare -> forallb wf_aux aa = true -> build_aux aa = Ok tags ->
+Lemma parse_loop_build aa : forall fuel tags,
+  forallb wf_aux aa = true -> build_aux aa = Ok tags ->
   (length aa < fuel)%nat ->
-  parse_aux_loop fuel spare tags = Ok aa.
+  parse_aux_loop fuel tags = Ok aa.
 Proof.
-  induction aa as [|a t IH]; intros fuel spare tags Hsp Hwf Hb Hf.
+  induction aa as [|a t IH]; intros fuel tags Hwf Hb Hf.
   - cbn [build_aux] in Hb. injection Hb as <-. destruct fuel; [inversion Hf|]. reflexivity.
   - cbn [forallb] in Hwf. apply andb_true_iff in Hwf. destruct Hwf as [Ha Ht].
     destruct (build_aux_ok t Ht) as [tg [Hbt _]].
@@ -163,7 +173,7 @@ Proof.
     rewrite (build_aux_cons a t tg H3 Hbt) in Hb. injection Hb as <-.
     destruct fuel; [inversion Hf|].
     rewrite parse_step by assumption.
-    rewrite (IH fuel spare tg Hsp Ht Hbt) by (cbn [length] in Hf; lia). reflexivity.
+    rewrite (IH fuel tg Ht Hbt) by (cbn [length] in Hf; lia). reflexivity.
 Qed.
 
 Lemma tags_len_ge aa : forallb wf_aux aa = true -> Z.of_nat (length aa) <= tags_len aa.
@@ -174,16 +184,100 @@ Proof.
   destruct ((getz a 2 =? 90) || (getz a 2 =? 72)); lia.
 Qed.
 
-(** parseAux inverts buildAux on well-formed fields, whatever the spare capacity. *)
-Theorem parse_build_aux aa spare tags :
-  0 <= spare -> forallb wf_aux aa = true -> build_aux aa = Ok tags ->
-  parse_aux spare tags = Ok aa.
+(** parseAux inverts buildAux on well-formed fields. *)
+Theorem parse_build_aux aa tags :
+  forallb wf_aux aa = true -> build_aux aa = Ok tags ->
+  parse_aux tags = Ok aa.
 Proof.
-  intros Hsp Hwf Hb. unfold parse_aux.
+  intros Hwf Hb. unfold parse_aux.
   destruct (build_aux_ok aa Hwf) as [tg [Hb' [Hl _]]]. rewrite Hb in Hb'. injection Hb' as <-.
   destruct (zlen tags =? 0) eqn:E.
   - apply Z.eqb_eq in E. pose proof (tags_len_ge aa Hwf). destruct aa; [reflexivity|].
     cbn [length] in H. lia.
   - apply parse_loop_build; try assumption.
     pose proof (tags_len_ge aa Hwf). unfold zlen in Hl. lia.
+Qed.
+
+(** * parseAux is total: on every byte string it returns fields or an error,
+    it never panics and never loops (the fuel [length aux + 1] suffices). *)
+Definition ok_or_err {A} (o : outcome A) : Prop := (exists r, o = Ok r) \/ (exists e, o = Err e).
+
+Lemma ocons_total {A} (a : A) o : ok_or_err o -> ok_or_err (ocons a o).
+Proof. intros [[r ->]|[e ->]]; [left|right]; eexists; reflexivity. Qed.
+
+Lemma getz_byte l i : all_bytes l = true -> 0 <= i < zlen l -> 0 <= getz l i < 256.
+Proof.
+  intros Hb Hi. apply all_bytes_forall in Hb. rewrite Forall_forall in Hb. apply Hb.
+  unfold getz. apply nth_In. unfold zlen in Hi. lia.
+Qed.
+
+Lemma jumps_in t : 0 <= t < 256 -> inb bam_jumps t = true.
+Proof.
+  intros H. unfold inb. change (zlen bam_jumps) with 256.
+  apply andb_true_intro; split; [apply Z.leb_le|apply Z.ltb_lt]; lia.
+Qed.
+
+Lemma jumps_neg_cases t : 0 <= t < 256 -> getz bam_jumps t < 0 -> t = 90 \/ t = 72 \/ t = 66.
+Proof.
+  intros Ht Hn.
+  pose proof (byte_forall (fun x => if getz bam_jumps x <? 0 then (x =? 90) || (x =? 72) || (x =? 66) else true)) as F.
+  specialize (F ltac:(vm_compute; reflexivity) t Ht). cbv beta in F.
+  replace (getz bam_jumps t <? 0) with true in F by (symmetry; apply Z.ltb_lt; assumption).
+  apply orb_true_iff in F. destruct F as [F|F]; [apply orb_true_iff in F; destruct F as [F|F]|]; apply Z.eqb_eq in F; tauto.
+Qed.
+
+Lemma index_byte_nonneg l c j : index_byte l c = Some j -> 0 <= j.
+Proof.
+  revert j; induction l as [|b t IH]; intros j H; [discriminate|].
+  cbn [index_byte] in H. destruct (b =? c); [injection H as <-; lia|].
+  destruct (index_byte t c) as [k|]; [|discriminate]. injection H as <-. specialize (IH k eq_refl). lia.
+Qed.
+
+Lemma skip_shorter (rest : list Z) k f :
+  1 <= k -> (length rest < S f)%nat -> (length (zskipn k rest) < f)%nat \/ length rest = 0%nat.
+Proof. intros Hk Hl. unfold zskipn. rewrite skipn_length. lia. Qed.
+
+Theorem parse_aux_loop_total : forall fuel rest,
+  all_bytes rest = true -> (length rest < fuel)%nat -> ok_or_err (parse_aux_loop fuel rest).
+Proof.
+  induction fuel as [|f IH]; intros rest Hb Hf; [inversion Hf|].
+  cbn [parse_aux_loop].
+  destruct (2 <? zlen rest) eqn:H2; cbn [negb]; [|left; eexists; reflexivity].
+  apply Z.ltb_lt in H2.
+  assert (Hne : length rest <> 0%nat) by (unfold zlen in H2; lia).
+  assert (Hrec : forall k, 1 <= k -> ok_or_err (parse_aux_loop f (zskipn k rest))).
+  { intros k Hk. apply IH; [apply all_bytes_skipn; assumption|].
+    destruct (skip_shorter rest k f Hk Hf); [assumption|contradiction]. }
+  pose proof (getz_byte rest 2 Hb ltac:(lia)) as Ht.
+  set (t := getz rest 2) in *.
+  rewrite (jumps_in t Ht). unfold chk3 at 1.
+  destruct (0 <? getz bam_jumps t) eqn:Hpos.
+  - apply Z.ltb_lt in Hpos. destruct (zlen rest <? getz bam_jumps t + 3); [right; eexists; reflexivity|].
+    apply ocons_total, Hrec. lia.
+  - destruct (getz bam_jumps t <? 0) eqn:Hneg; [|right; eexists; reflexivity].
+    apply Z.ltb_lt in Hneg.
+    destruct (jumps_neg_cases t Ht Hneg) as [E|[E|E]]; rewrite E.
+    + change ((90 =? 90) || (90 =? 72)) with true. cbv iota.
+      destruct (index_byte (zskipn 3 rest) 0) as [j|] eqn:Ei; [|right; eexists; reflexivity].
+      pose proof (index_byte_nonneg _ _ _ Ei). apply ocons_total, Hrec. lia.
+    + change ((72 =? 90) || (72 =? 72)) with true. cbv iota.
+      destruct (index_byte (zskipn 3 rest) 0) as [j|] eqn:Ei; [|right; eexists; reflexivity].
+      pose proof (index_byte_nonneg _ _ _ Ei). apply ocons_total, Hrec. lia.
+    + change ((66 =? 90) || (66 =? 72)) with false. change (66 =? 66) with true. cbv iota.
+      destruct (zlen rest <? 8) eqn:H8; [right; eexists; reflexivity|]. apply Z.ltb_ge in H8.
+      pose proof (getz_byte rest 3 Hb ltac:(lia)) as Hs.
+      rewrite (jumps_in _ Hs). unfold chk3.
+      destruct (getz bam_jumps (getz rest 3) <=? 0) eqn:Hsz; [right; eexists; reflexivity|]. apply Z.leb_gt in Hsz.
+      set (cnt := le_get (zfirstn 4 (zskipn 4 rest))).
+      assert (0 <= cnt).
+      { unfold cnt, zfirstn, zskipn. apply le_get_range. apply all_bytes_firstn, all_bytes_skipn. assumption. }
+      destruct ((cnt * getz bam_jumps (getz rest 3) + 4 + 4 <? 0) || (zlen rest <? cnt * getz bam_jumps (getz rest 3) + 4 + 4));
+        [right; eexists; reflexivity|].
+      apply ocons_total, Hrec. pose proof (Z.mul_nonneg_nonneg cnt (getz bam_jumps (getz rest 3))). lia.
+Qed.
+
+Theorem parse_aux_total aux : all_bytes aux = true -> ok_or_err (parse_aux aux).
+Proof.
+  intros Hb. unfold parse_aux. destruct (zlen aux =? 0); [left; eexists; reflexivity|].
+  apply parse_aux_loop_total; [assumption|lia].
 Qed.
